@@ -27,6 +27,10 @@ def _spaces():
       perm=pg.Dict(p=pg.manyof(3, [0, 1, 2, 3], distinct=True, sorted=False), q=pg.oneof([0, 1])),
       sorted_nd=pg.Dict(s=pg.manyof(3, [0, 1, 2, 3, 4], distinct=False, sorted=True)),
       floats=pg.Dict(f=pg.floatv(0.0, 1.0), g=pg.floatv(-1.0, 1.0), c=pg.oneof([0, 1, 2])),
+      tiny=pg.Dict(x=pg.oneof([1, pg.oneof(['p', 'q'])]), y=pg.oneof([0, 1, 2])),
+      # floats that exist under one branch of a choice only (parents may sit on different branches)
+      cond_floats=pg.Dict(b=pg.oneof([pg.Dict(rate=pg.floatv(0.5, 1.0)), 'none', pg.Dict(rate2=pg.floatv(0.5, 1.0))]),
+                          c=pg.oneof([0, 1])),
   )
 
 
@@ -39,6 +43,8 @@ def space(name):
       spec = pg.dna_spec(_spaces()[name])
       if name == 'floats':
         dnas = [pg.DNA([a, b, c], spec=spec) for a in (0.0, 0.5, 1.0) for b in (-1.0, 0.25) for c in (0, 2)]
+      elif name == 'cond_floats':
+        dnas = [pg.DNA([b, c], spec=spec) for b in ((0, 0.5), (0, 0.6), (0, 1.0), 1, (2, 0.75)) for c in (0, 1)]
       else:
         dnas = list(spec.iter_dna())
       _CACHE[name] = (spec, dnas)
@@ -131,7 +137,11 @@ def _snapshot(pop):
 def h_op(params, n0, n1, n2, n3, size, f0, f1, f2, f3, rng):
   name, sp = params['op'], params['spec']
   spec, dnas = space(sp)
-  size = _pick([2, 3, 4], size - 2)
+  if 'sizes' in params:      # core shards: size was made concrete by h_op_core (and may be 1)
+    if size not in params['sizes']:
+      raise Assume()
+  else:
+    size = _pick([2, 3, 4], size - 2)
   if name in TWO_PARENTS and size != 2:
     raise Assume()          # documented: these recombinators take exactly two parents
   idx = [n0, n1, n2, n3][:size]
@@ -242,8 +252,12 @@ def shards(tier, seed):
   b = 30 if quick else 400
   out = []
   default_specs = ['named'] if quick else ['named', 'sorted_multi', 'multi_nested', 'perm', 'sorted_nd']
+  for cname, cparams in core_shards():
+    out.append(dict(name=cname, fn='h_op_core', params=cparams, args=_ARGS, budget_s=240 if quick else 900, expect_s=40, per_path_s=20))
   for name in OPS:
     specs = [NEEDS[name]] if name in NEEDS else default_specs
+    if name in ('rec_average', 'rec_wavg'):
+      specs = specs + ['cond_floats']
     if name in ('rec_kpoint1', 'rec_kpoint2', 'rec_segmented', 'mut_uniform', 'mut_swap', 'rec_uniform') and 'sorted_nd' not in specs:
       specs = specs + ['sorted_nd']
     for sp in specs:
@@ -267,3 +281,66 @@ META = dict(
                    'operator expressions outside the listed set'],
     assumptions=[],
 )
+
+
+# --- core shards: small enough to close (every member combination x every RNG draw, within the stated cut) ---
+FITNESS_SENSITIVE = {'sel_top', 'sel_bottom', 'x_pipeline', 'x_elitism', 'x_difference', 'x_inversion', 'x_slice', 'x_if_true',
+                     'x_rec_then_mut'}
+
+# op -> [(spec, population sizes, number of representative members, fitness values)]
+_A = lambda sp='named': [(sp, [2, 3], 3, [0, 1, 2])]
+_SEL = [('named', [2], 3, [0, 1, 2]), ('named', [3], 1, [0, 1, 2]), ('named', [4], 1, [0, 1, 2])]
+CORE = {
+    'mut_uniform': [('named', [1], 3, None)],
+    'mut_swap': [('named', [1], 3, None), ('tiny', [1, 2], 3, None)],
+    'rec_uniform': [('tiny', [2], 3, None)],
+    'rec_sample': [('tiny', [2], 3, None)],
+    'rec_kpoint1': [('named', [2], 4, None)], 'rec_kpoint2': [('named', [2], 4, None)], 'rec_segmented': [('named', [2], 4, None)],
+    'rec_pmx': [('perm', [2], 4, None)], 'rec_order': [('perm', [2], 4, None)], 'rec_cycle': [('perm', [2], 4, None)],
+    'rec_average': _A('floats') + [('cond_floats', [2, 3], 4, None)], 'rec_wavg': _A('floats') + [('cond_floats', [2, 3], 4, None)],
+    'sel_random': [('named', [2, 3], 2, None)],
+    'sel_random_repl': [('named', [2], 2, None), ('named', [3], 1, None)],
+    'sel_sample': [('named', [2, 3], 2, None)],
+    'sel_proportional': [('named', [2, 3], 2, None)],
+    'sel_top': _SEL, 'sel_bottom': _SEL, 'x_difference': _SEL, 'x_inversion': _SEL, 'x_slice': _SEL,
+    'sel_first': _A(), 'sel_last': _A(), 'x_union': _A(), 'x_intersection': _A(), 'x_symdiff': _A(), 'x_for_each': _A(),
+    'x_pipeline': [('tiny', [2], 1, [0, 1])],
+    'x_rec_then_mut': [('tiny', [2], 1, [0, 1])],
+    'x_elitism': [('tiny', [2], 2, [0, 1, 2])],
+    'x_if_true': [('named', [2], 3, [0, 1, 2]), ('tiny', [3], 1, [0, 1])],
+    'x_repeat': [('tiny', [1], 3, None)], 'x_power': [('tiny', [1], 3, None)],
+    'x_with_prob': [('named', [1], 3, None)],
+    'x_until_change': [('tiny', [1], 3, None)],
+    'x_choice': [('tiny', [1], 3, None)],
+    'x_skip_concat': [('tiny', [3], 1, None), ('tiny', [2], 2, None)],
+}
+
+
+def core_shards():
+  out = []
+  for name, cuts in CORE.items():
+    for sp, sizes, nr, fits in cuts:
+      n = len(space(sp)[1])
+      reps = {1: [n // 2], 2: [0, n - 1], 3: sorted({0, n // 2, n - 1}), 4: sorted({0, n // 3, 2 * n // 3, n - 1})}[nr]
+      params = dict(op=name, spec=sp, reps=reps, sizes=sizes)
+      if fits is not None:
+        params['fits'] = fits
+      out.append((f'core:{name}:{sp}:size{"".join(map(str, sizes))}:reps{nr}', params))
+  return out
+
+
+def h_op_core(params, n0, n1, n2, n3, size, f0, f1, f2, f3, rng):
+  """h_op under a cut that makes the path tree finite and small: members drawn from `reps` (indices into the
+  enumeration), population size from `sizes`, fitness symbolic only where the expression reads it."""
+  reps, sizes = params['reps'], params['sizes']
+  from engine.chx import concretize
+  size = concretize(size, sizes)
+  ns = [n0, n1, n2, n3]
+  fs = [f0, f1, f2, f3]
+  for k in range(4):
+    if k < size:
+      ns[k] = concretize(ns[k], reps)
+      fs[k] = concretize(fs[k], params.get('fits', [0, 1, 2])) if params['op'] in FITNESS_SENSITIVE else k % 3
+    else:
+      ns[k], fs[k] = 0, 0
+  return h_op(params, ns[0], ns[1], ns[2], ns[3], size, fs[0], fs[1], fs[2], fs[3], rng)
